@@ -182,6 +182,16 @@ def pagingOp (j : Json) : Except String Res := do
     let rec hasRun : List Bool → Nat → Bool
       | [], _ => false
       | b :: bs, k => if b then (k + 1 > Coll.threshold) || hasRun bs (k + 1) else hasRun bs 0
+    -- nothing behind a run of more than `threshold` consecutive empty pages may be delivered
+    let rec upToRun : List (Coll.Page JVal JVal) → Nat → List JVal
+      | [], _ => []
+      | p :: ps, k =>
+        if p.items.isEmpty then (if k + 1 > Coll.threshold then [] else upToRun ps (k + 1))
+        else p.items ++ upToRun ps 0
+    let reachable := (match ch with
+      | [] => []
+      | p :: ps => if p.items.isEmpty then upToRun ps 1 else (p.items.drop start) ++ upToRun ps 0).map fun e => tagJson (.item e)
+    let boundedOk := items.isPrefixOf reachable
     let refused := it.any fun t => t == Json.mkObj [("fail", "refuse")]
     let refusalOk := !refused || hasRun emptyFlags 0
     -- an empty continuation without an error item means everything was delivered
@@ -201,6 +211,7 @@ def pagingOp (j : Json) : Except String Res := do
     pure { model := Json.arr out,
            preds := [("delivered_is_prefix_of_true_sequence", prefixOk), ("continuation_means_full_request", contOk),
                      ("refusal_only_after_consecutive_empties", refusalOk),
+                     ("nothing_delivered_beyond_an_empty_run", boundedOk),
                      ("clean_end_means_complete", completeOk)],
            nontrivial := pagesSeen ≥ 3 }
 
